@@ -371,7 +371,7 @@ fn zero_value_case(script1: Vec<u8>) -> (Result<(), VerificationError>, [u8; 64]
 amt_stubs! {
 //@ harness: zero_value_spendable_rejected class=B tier=quick bound="1 explicit input, 2 explicit outputs, the second with amount 0 on a 1-byte script whose opcode is symbolic and not OP_RETURN; primitives answer valid" props=C05 timeout=600
 //@ clause: a zero-value explicit output on a script that is not provably unspendable makes amount verification fail even when every primitive says valid
-#[kani::unwind(66)]
+#[kani::unwind(8)]
 fn zero_value_spendable_rejected() {
     kani::cover!(models_active(), "libsecp models / recorders active");
     if !models_active() { return; }
@@ -389,8 +389,8 @@ macro_rules! zero_value_admissible {
     ($name:ident, $script:expr) => {
         amt_stubs! {
         // the number of output commitments depends on whether a zero-value output is skipped, so the loops over them
-        // have a symbolic bound: unwind 66 = the 64-byte comparisons of this harness + 2 (unwinding assertions stay on)
-        #[kani::unwind(66)]
+        // have a symbolic bound: unwind 8 covers every loop of this harness and of the verifier for <= 2 outputs (unwinding assertions stay on)
+        #[kani::unwind(8)]
         fn $name() {
             kani::cover!(models_active(), "libsecp models / recorders active");
             if !models_active() { return; }
@@ -401,8 +401,8 @@ macro_rules! zero_value_admissible {
                     if models_active() {
                         let ta = unsafe { fm::TALLY_LOG[0] };
                         unsafe { assert!(fm::TALLY_N == 1); }
-                        assert!(ta.npos == 1 && ta.pos[0] == c_in);
-                        assert!(ta.nneg == 1 && ta.neg[0] == c_out0);
+                        assert!(ta.npos == 1 && fm::eq64(&ta.pos[0], &c_in));
+                        assert!(ta.nneg == 1 && fm::eq64(&ta.neg[0], &c_out0));
                     }
                     kani::cover!(true);
                 }
@@ -415,7 +415,7 @@ macro_rules! zero_value_admissible {
         }
     };
 }
-//@ harness: zero_value_opreturn_admissible class=B tier=quick bound="1 explicit input, 2 explicit outputs, the second with amount 0 on the script OP_RETURN; primitives answer valid; unwind 66" props=C05 timeout=600
+//@ harness: zero_value_opreturn_admissible class=B tier=quick bound="1 explicit input, 2 explicit outputs, the second with amount 0 on the script OP_RETURN; primitives answer valid; unwind 8" props=C05 timeout=600
 //@ clause: zero-value outputs are admissible on provably unspendable scripts (OP_RETURN burn): the balanced transaction verifies and the zero output is not part of the balance call. EXPECTED TO FAIL on the pinned tree: DESIGN section 6, D9
 zero_value_admissible!(zero_value_opreturn_admissible, vec![0x6au8]);
 //@ harness: zero_value_emptyscript_admissible class=B tier=quick bound="as above with the empty script (zero fee output)" props=C05 timeout=600
